@@ -486,13 +486,22 @@ func c08Execute(p c08plan, tscale int) (run c08run) {
 
 // c08Script renders the session for the model. resetAfter (counterfactual only) marks units
 // after whose delivery the model's read-loop buffer is emptied.
-func c08Script(run c08run, resetAfter map[int]bool) string {
+// idleEvery: an idle read-loop iteration (empty read) after every read instead of only between
+// bursts. Whether the loop idles between two reads is scheduling; it cannot matter inside the
+// theorems' hypotheses, but it can move the cut point of a known-finding (F2) truncation.
+func c08Script(run c08run, resetAfter map[int]bool, idleEvery bool) string {
 	var items []string
 	ui := 0
 	emitPhase := func(ph int, poll bool) {
 		for ui < len(run.units) && run.units[ui].phase <= ph {
 			u := run.units[ui]
-			cs := append([][]byte{}, u.chunks...)
+			var cs [][]byte
+			for _, ch := range u.chunks {
+				cs = append(cs, ch)
+				if idleEvery {
+					cs = append(cs, []byte{})
+				}
+			}
 			cs = append(cs, []byte{}) // the read loop idles between bursts
 			switch u.kind {
 			case "E":
@@ -723,7 +732,7 @@ func runC08(c *ctx) {
 			res.Fail("machinery", jb.line, "could not attribute the delivered reads to the emitted messages", "harness-alignment")
 			return false
 		}
-		script := c08Script(run, nil)
+		script := c08Script(run, nil, false)
 		ver := "1.0"
 		if p.v11 {
 			ver = "1.1"
@@ -790,7 +799,7 @@ func runC08(c *ctx) {
 		}
 		var cfModel []string
 		if len(faulty) > 0 {
-			cf := strings.Fields(c.ask([]string{"c08 sess " + ver + " " + c08Script(run, faulty)})[0])
+			cf := strings.Fields(c.ask([]string{"c08 sess " + ver + " " + c08Script(run, faulty, false)})[0])
 			if len(cf) == 5 {
 				_, cfModel = c08ParseResults(cf[2])
 			}
@@ -846,6 +855,8 @@ func runC08(c *ctx) {
 		var fails []fail
 		lostTiming := false
 		knockCount := 0
+		idleCount := 0
+		var idleModel []string
 		// ids
 		idBase := 0
 		if len(run.reqIDs) > 0 {
@@ -898,11 +909,32 @@ func runC08(c *ctx) {
 				sb, _ := vlib.UnHex(L.spec[k])
 				specOK = impl != "T" && bytes.Equal(c08TrimLF(o.raw), c08TrimLF(sb))
 			}
-			modelSame := impl == L.model[k]
-			if !modelSame && impl != "T" && L.model[k] != "T" {
+			sameAs := func(m string) bool {
+				if impl == m {
+					return true
+				}
+				if impl == "T" || m == "T" {
+					return false
+				}
 				// line feeds around a message are not observable through Result: compare modulo them
-				mb, _ := vlib.UnHex(L.model[k])
-				modelSame = bytes.Equal(c08TrimLF(o.raw), c08TrimLF(mb))
+				mb, _ := vlib.UnHex(m)
+				return bytes.Equal(c08TrimLF(o.raw), c08TrimLF(mb))
+			}
+			modelSame := sameAs(L.model[k])
+			if !modelSame && !L.dom {
+				// outside the hypotheses the outcome may depend on whether the loop idled between
+				// two reads: accept the model's answer under the other schedule as well
+				if idleModel == nil {
+					ia := strings.Fields(c.ask([]string{"c08 sess " + ver + " " + c08Script(run, nil, true)})[0])
+					idleModel = []string{}
+					if len(ia) == 5 {
+						_, idleModel = c08ParseResults(ia[2])
+					}
+				}
+				if len(idleModel) == len(p.calls) && sameAs(idleModel[k]) {
+					modelSame = true
+					idleCount++
+				}
 			}
 			if !modelSame && !specOK {
 				if impl == "T" && L.model[k] != "T" {
@@ -971,6 +1003,7 @@ func runC08(c *ctx) {
 			return true
 		}
 		res.Distribution["knock-on-after-known-finding"] += knockCount
+		res.Distribution["matched-model-under-idle-read-schedule(outside hypotheses)"] += idleCount
 		nontrivial := false
 		for _, cl := range p.calls {
 			if len(p.calls) >= 2 && (cl.mode != 0 || p.echo != 0) {
